@@ -11,7 +11,9 @@ package main
 //   c16.holds.prim_in_box <kind> … : oracle, the reported point lies in the primitive's box (slack 1e-9 for rounding)
 
 import (
+	"fmt"
 	"math"
+	"strings"
 
 	"github.com/EliCDavis/polyform/modeling"
 	"github.com/EliCDavis/polyform/rendering"
@@ -73,6 +75,67 @@ func runC16Prims(c *Ctx) {
 		c.c16primSphere()
 		c.c16primRect()
 		c.c16primTri()
+		if k%2 == 0 {
+			c.c16primMesh()
+		}
+	}
+}
+
+// rendering.Mesh (octree of intersectingTri, automatic depth): Mesh.Hit (traverse + callback) and Mesh.Hit2 (collect + loop)
+// against the model's meshHit / meshHit2 on the model's octree of the same triangles.
+//   c16.mesh.hit auto tri <n> <9n floats> o d time mn mx -> <Hit: true dist | false> <Hit2: true dist | false>
+func (c *Ctx) c16primMesh() {
+	n := 1 + c.Rng.Intn(24)
+	var m modeling.Mesh
+	var verts []v3
+	var idx []int
+	switch c.Rng.Intn(3) {
+	case 0:
+		m, verts, idx = c.c16triGridMesh(n)
+		c.Note("prims.mesh.intgrid")
+	case 1:
+		m, verts, idx = c.c16flatMesh()
+		n = len(idx) / 3
+		c.Note("prims.mesh.flat")
+	default:
+		m, verts, idx = c.c16triMesh(n)
+		c.Note("prims.mesh.soup")
+	}
+	parts := make([]string, 0, n)
+	for i := 0; i < n; i++ {
+		parts = append(parts, c16v(verts[idx[3*i]])+" "+c16v(verts[idx[3*i+1]])+" "+c16v(verts[idx[3*i+2]]))
+	}
+	enc := "auto tri " + fmt.Sprint(n) + " " + strings.Join(parts, " ")
+	mesh := rendering.NewMesh(m, nil)
+	for q := 0; q < 3; q++ {
+		ti := c.Rng.Intn(n)
+		ta, tb, tc := verts[idx[3*ti]], verts[idx[3*ti+1]], verts[idx[3*ti+2]]
+		w1, w2 := c.Rng.Float64(), c.Rng.Float64()
+		if w1+w2 > 1 {
+			w1, w2 = 1-w1, 1-w2
+		}
+		target := ta.Add(tb.Sub(ta).Scale(w1)).Add(tc.Sub(ta).Scale(w2))
+		if c.Rng.Intn(6) == 0 {
+			target = c.c16pv(15)
+		}
+		o, d, ok := c.c16aim(target, 30)
+		if !ok {
+			continue
+		}
+		ray := rendering.NewTemporalRay(o, d, 0)
+		mn, mx := 0., 1e6
+		if c.Rng.Intn(3) == 0 {
+			mn, mx = c.c16range(target.Distance(ray.Origin()))
+		}
+		r1, r2 := rendering.NewHitRecord(), rendering.NewHitRecord()
+		h1 := mesh.Hit(&ray, mn, mx, r1)
+		h2 := mesh.Hit2(&ray, mn, mx, r2)
+		if h1 {
+			c.Note("prims.mesh.hit")
+		} else {
+			c.Note("prims.mesh.miss")
+		}
+		c.Emit("c16.mesh.hit", enc+" "+c16rayEnc(&ray, 0, mn, mx), c16hitEncD(h1, r1)+" "+c16hitEncD(h2, r2))
 	}
 }
 
